@@ -99,6 +99,19 @@ func (w *SW) Open() error {
 	return err
 }
 
+// CrashReopen abandons the running Store without Stop (its datastore is detached: what it
+// still writes vanishes) and opens a new Store on an image of everything written so far.
+func (w *SW) CrashReopen() error {
+	old, oldDisk := w.St, w.Disk
+	img := simdisk.FromImage(fmt.Sprintf("d%d", w.opens), w.S, oldDisk.Log())
+	img.Park = oldDisk.Park
+	oldDisk.Blackhole()
+	w.S.Go("stop-dead-instance", func() { _ = old.Stop(context.Background()) })
+	w.S.Quiesce(0)
+	w.Disk = img
+	return w.Open()
+}
+
 func (w *SW) Stop() error {
 	var err error
 	_, fin := w.S.Do("stop", opBudget, func() { err = w.St.Stop(context.Background()) })
